@@ -57,6 +57,8 @@ def _apply_bg_color(element: ContentElement, bg_color: ColorType):
       _apply_bg_color(child, bg_color)
 
 def _safe_area_decoder(s: Number) -> int:
+  if isinstance(s, bool) or not isinstance(s, Number) or int(s) != s:
+    raise ValueError("Safe area must be an integer between 0 and 30")
   safe_area = int(s)
   if safe_area < 0 or safe_area > 30:
     raise ValueError("Safe area must be an integer between 0 and 30")
